@@ -394,6 +394,378 @@ def joined_parts(js: ast.JoinedStr) -> list[str]:
     return parts
 
 
+
+# ------------------------------------------------------------------------------------------------
+# builtin result plugins: which files YmlProjectIo.save_result / FolderProjectIo.save_result write
+# ------------------------------------------------------------------------------------------------
+RESULT_PLUGINS = [
+    ("glotaran/builtin/io/yml/yml.py", "YmlProjectIo"),
+    ("glotaran/builtin/io/folder/folder_plugin.py", "FolderProjectIo"),
+]
+PLUGIN_PURE_NAMES = PURE_NAMES | {"replace", "asdict", "relative_posix_path", "warn", "UserWarning", "warn_deprecated"}
+PLUGIN_PURE_METHODS = {"as_posix", "append", "extend", "markdown", "items", "keys", "values", "is_file", "is_dir", "exists", "get"}
+FILE_WRITER_METHODS = {"write_text": None, "write_bytes": None,          # target = the receiver
+                       "to_csv": 0, "to_netcdf": 0, "to_excel": 0}       # target = that positional argument
+
+
+class PluginExtractor:
+    """symbolic walk over one `save_result` method of a result plugin.
+
+    Path values: ('param',) the raw `result_path`; ('folder',); ('file',); ('in', parts) = folder / name;
+    ('name', parts) a bare file name; ('other', src).  Name parts: ('text', s) | ('label',) | ('paramFormat',) |
+    ('dataFormat',) | ('other', src)."""
+
+    def __init__(self, fn: ast.FunctionDef):
+        self.fn = fn
+        a = fn.args
+        self.params = [x.arg for x in a.posonlyargs + a.args + a.kwonlyargs]
+        self.path_param = self.params[2] if len(self.params) > 2 else ""
+        self.vars: dict[str, tuple] = {self.path_param: ("param",)}
+        self.label_vars: set[str] = set()
+        self.steps: list[dict] = []
+        self.suffixes: list[str] = []
+        self.default_file = ""
+        self.next_maybe = 0
+
+    def maybe(self):
+        c = ("maybe", self.next_maybe)
+        self.next_maybe += 1
+        return c
+
+    def emit(self, eff, cond):
+        self.steps.append({"eff": eff, "cond": cond})
+
+    # -- symbolic values ---------------------------------------------------------------------
+    def name_parts(self, node):
+        if isinstance(node, ast.Constant) and isinstance(node.value, str):
+            return [("text", node.value)]
+        if isinstance(node, ast.JoinedStr):
+            parts = []
+            for v in node.values:
+                if isinstance(v, ast.Constant):
+                    parts.append(("text", str(v.value)))
+                elif isinstance(v, ast.FormattedValue) and v.format_spec is None and v.conversion == -1:
+                    src = ast.unparse(v.value)
+                    if isinstance(v.value, ast.Name) and v.value.id in self.label_vars:
+                        parts.append(("label",))
+                    elif src == "saving_options.parameter_format":
+                        parts.append(("paramFormat",))
+                    elif src == "saving_options.data_format":
+                        parts.append(("dataFormat",))
+                    else:
+                        parts.append(("other", src))
+                else:
+                    parts.append(("other", ast.unparse(v)))
+            return parts
+        if isinstance(node, ast.Name) and self.vars.get(node.id, ("",))[0] == "name":
+            return self.vars[node.id][1]
+        return None
+
+    def sym(self, node):
+        if node is None:
+            return ("other", "<absent>")
+        if isinstance(node, ast.Name):
+            return self.vars.get(node.id, ("other", node.id))
+        if isinstance(node, ast.Call) and isinstance(node.func, ast.Name) and node.func.id in ("Path", "str") and len(node.args) == 1 \
+                and not node.keywords:
+            return self.sym(node.args[0])
+        if isinstance(node, ast.BinOp) and isinstance(node.op, ast.Div):
+            left, parts = self.sym(node.left), self.name_parts(node.right)
+            if parts is not None and left in (("folder",), ("param",)):
+                return ("in", parts) if left == ("folder",) else ("inparam", parts)
+            return ("other", ast.unparse(node))
+        if isinstance(node, ast.Attribute) and node.attr == "parent" and self.sym(node.value) == ("file",):
+            return ("folder",)
+        parts = self.name_parts(node)
+        if parts is not None:
+            return ("name", parts)
+        return ("other", ast.unparse(node))
+
+    # -- calls -----------------------------------------------------------------------------
+    def expr(self, node, cond):
+        if node is None:
+            return
+        if isinstance(node, (ast.BoolOp, ast.IfExp, ast.Lambda, ast.ListComp, ast.SetComp, ast.DictComp, ast.GeneratorExp)):
+            c = self.maybe()
+            for ch in ast.walk(node):
+                if isinstance(ch, ast.Call):
+                    self.emit(self.classify(ch), c)
+            return
+        if isinstance(node, ast.Call):
+            if isinstance(node.func, ast.Attribute):
+                self.expr(node.func.value, cond)
+            for a in node.args:
+                self.expr(a.value if isinstance(a, ast.Starred) else a, cond)
+            for k in node.keywords:
+                self.expr(k.value, cond)
+            eff = self.classify(node)
+            if eff is not None:
+                self.emit(eff, cond)
+            return
+        for ch in ast.iter_child_nodes(node):
+            if isinstance(ch, ast.expr):
+                self.expr(ch, cond)
+
+    def classify(self, call: ast.Call):
+        f = call.func
+        kws = {k.arg: k.value for k in call.keywords if k.arg is not None}
+        if isinstance(f, ast.Name):
+            n = f.id
+            if n in SAVE_NAMES:
+                path = call.args[1] if len(call.args) > 1 else kws.get("result_path", kws.get("file_name"))
+                allow = argref(kws.get("allow_overwrite"), self.params)
+                if n == "save_result":
+                    fmt = kws.get("format_name")
+                    fmt = fmt.value if isinstance(fmt, ast.Constant) and isinstance(fmt.value, str) else ""
+                    return ("delegate", fmt, self.sym(path), allow)
+                return ("write", n, self.sym(path), allow)
+            if n == "write_dict":
+                path = kws.get("file_name", call.args[1] if len(call.args) > 1 else None)
+                if path is None:
+                    return None
+                return ("write", n, self.sym(path), ("absent",))
+            if n in PLUGIN_PURE_NAMES:
+                return None
+            return ("unknown", n)
+        if isinstance(f, ast.Attribute):
+            if f.attr in FILE_WRITER_METHODS:
+                i = FILE_WRITER_METHODS[f.attr]
+                if i is None:
+                    return ("write", "." + f.attr, self.sym(f.value), ("absent",))
+                path = call.args[i] if len(call.args) > i else kws.get("path_or_buf", kws.get("path"))
+                if path is None:
+                    return None     # returns a string
+                return ("write", "." + f.attr, self.sym(path), ("absent",))
+            if f.attr == "mkdir":
+                return ("mkdir", self.sym(f.value))
+            if f.attr in PLUGIN_PURE_METHODS:
+                return None
+            return ("unknown", dotted(f))
+        return ("unknown", dotted(f))
+
+    # -- statements --------------------------------------------------------------------------
+    def stmts(self, body, cond):
+        for i, s in enumerate(body):
+            if i == 0 and body is self.fn.body and isinstance(s, ast.Expr) and isinstance(s.value, ast.Constant) \
+                    and isinstance(s.value.value, str):
+                continue
+            self.stmt(s, cond)
+
+    def suffix_idiom(self, s: ast.If):
+        """`if v.suffix not in [".yml", …]: v = v / "result.yml"` with v bound to the raw path parameter"""
+        t = s.test
+        if not (isinstance(t, ast.Compare) and len(t.ops) == 1 and isinstance(t.ops[0], ast.NotIn) and not s.orelse
+                and isinstance(t.left, ast.Attribute) and t.left.attr == "suffix" and isinstance(t.left.value, ast.Name)):
+            return False
+        v = t.left.value.id
+        lst_ = t.comparators[0]
+        if self.vars.get(v) != ("param",) or not isinstance(lst_, (ast.List, ast.Tuple)) \
+                or not all(isinstance(e, ast.Constant) and isinstance(e.value, str) and e.value.startswith(".") for e in lst_.elts):
+            return False
+        if len(s.body) != 1 or not isinstance(s.body[0], ast.Assign) or len(s.body[0].targets) != 1:
+            return False
+        tgt, val = s.body[0].targets[0], s.body[0].value
+        if not (isinstance(tgt, ast.Name) and tgt.id == v and isinstance(val, ast.BinOp) and isinstance(val.op, ast.Div)
+                and isinstance(val.left, ast.Name) and val.left.id == v and isinstance(val.right, ast.Constant)
+                and isinstance(val.right.value, str)):
+            return False
+        self.suffixes = [e.value[1:] for e in lst_.elts]
+        self.default_file = val.right.value
+        for k, sv in list(self.vars.items()):
+            if sv == ("param",):
+                self.vars[k] = ("other", "raw path parameter") if k != v else ("file",)
+        return True
+
+    def stmt(self, s, cond):
+        if isinstance(s, ast.Expr):
+            self.expr(s.value, cond)
+        elif isinstance(s, (ast.Assign, ast.AnnAssign)):
+            value = s.value
+            self.expr(value, cond)
+            targets = s.targets if isinstance(s, ast.Assign) else [s.target]
+            for t in targets:
+                if isinstance(t, ast.Name):
+                    if value is not None and not isinstance(value, ast.Call) or (
+                            isinstance(value, ast.Call) and isinstance(value.func, ast.Name) and value.func.id in ("Path", "str")):
+                        sv = self.sym(value)
+                        self.vars[t.id] = sv if cond == ("always",) or sv[0] != "other" else ("other", "conditional " + t.id)
+                    else:
+                        self.vars[t.id] = ("other", t.id)
+        elif isinstance(s, ast.AugAssign):
+            self.expr(s.value, cond)
+        elif isinstance(s, ast.Return):
+            self.expr(s.value, cond)
+        elif isinstance(s, ast.If):
+            if cond == ("always",) and self.suffix_idiom(s):
+                return
+            t = s.test
+            # `if X.is_file(): raise …`
+            if isinstance(t, ast.Call) and isinstance(t.func, ast.Attribute) and t.func.attr == "is_file" and not s.orelse \
+                    and len(s.body) == 1 and isinstance(s.body[0], ast.Raise):
+                exc = s.body[0].exc
+                self.emit(("refuse", self.sym(t.func.value), dotted(exc.func) if isinstance(exc, ast.Call) else dotted(exc)), cond)
+                return
+            self.expr(t, cond)
+            if ast.unparse(t) in ("saving_options.report", "saving_options.report is True") and cond == ("always",) and not s.orelse:
+                self.stmts(s.body, ("ifReport",))
+                return
+            self.stmts(s.body, self.maybe())
+            if s.orelse:
+                self.stmts(s.orelse, self.maybe())
+        elif isinstance(s, ast.For):
+            self.expr(s.iter, cond)
+            it, tg = ast.unparse(s.iter), s.target
+            if cond == ("always",) and it in ("result.data.items()", "result.data") and not s.orelse:
+                lv = tg.elts[0] if isinstance(tg, ast.Tuple) and len(tg.elts) == 2 else tg
+                if isinstance(lv, ast.Name):
+                    self.label_vars.add(lv.id)
+                    self.stmts(s.body, ("forEachLabel",))
+                    self.label_vars.discard(lv.id)
+                    return
+            c = self.maybe()
+            self.stmts(s.body, c)
+            self.stmts(s.orelse, c)
+        elif isinstance(s, ast.Raise):
+            self.expr(s.exc, cond)
+            self.emit(("unknown", "raise"), cond)
+        elif isinstance(s, (ast.Pass, ast.Import, ast.ImportFrom)):
+            pass
+        else:
+            for ch in ast.walk(s):
+                if isinstance(ch, ast.Call):
+                    eff = self.classify(ch)
+                    if eff is not None:
+                        self.emit(eff, self.maybe())
+            self.emit(("unknown", "stmt:" + type(s).__name__), cond)
+
+    def run(self):
+        self.stmts(self.fn.body, ("always",))
+        is_folder = not self.suffixes
+
+        def place(sv):
+            if sv == ("param",):
+                return ("folder",) if is_folder else ("other", "raw path parameter")
+            if sv[0] == "inparam":
+                return ("in", sv[1]) if is_folder else ("other", "raw path parameter / name")
+            if sv[0] == "name":
+                return ("other", "bare file name")
+            return sv
+
+        out = []
+        for st in self.steps:
+            e = st["eff"]
+            if e[0] in ("write", "delegate"):
+                e = (e[0], e[1], place(e[2]), e[3])
+            elif e[0] in ("mkdir", "refuse"):
+                e = (e[0], place(e[1])) + tuple(e[2:])
+            out.append({"eff": e, "cond": st["cond"]})
+        return out
+
+
+def extract_result_plugins(repo: Path) -> list[dict]:
+    out = []
+    for rel, cls_name in RESULT_PLUGINS:
+        tree = ast.parse((repo / rel).read_text())
+        for cls in tree.body:
+            if isinstance(cls, ast.ClassDef) and cls.name == cls_name:
+                formats = []
+                for d in cls.decorator_list:
+                    if isinstance(d, ast.Call) and dotted(d.func) == "register_project_io" and d.args:
+                        a0 = d.args[0]
+                        formats = [e.value for e in a0.elts] if isinstance(a0, (ast.List, ast.Tuple)) else [a0.value]
+                for fn in cls.body:
+                    if isinstance(fn, ast.FunctionDef) and fn.name == "save_result":
+                        pe = PluginExtractor(fn)
+                        steps = pe.run()
+                        out.append({"formats": formats, "cls": cls_name, "file": rel, "suffixes": pe.suffixes,
+                                    "default_file": pe.default_file, "steps": steps})
+    return out
+
+
+# rendering of the plugin table comes after lean_argref/lean_list below
+
+def lean_namepart(x) -> str:
+    if x[0] == "text":
+        return f"(.text {lean_str(x[1])})"
+    if x[0] == "other":
+        return f"(.other {lean_str(x[1])})"
+    return "." + x[0]
+
+
+def lean_target(t) -> str:
+    if t[0] == "folder":
+        return ".folder"
+    if t[0] == "file":
+        return ".resultFile"
+    if t[0] == "in":
+        return "(.inFolder [" + ", ".join(lean_namepart(x) for x in t[1]) + "])"
+    return f"(.other {lean_str(t[1] if len(t) > 1 and isinstance(t[1], str) else repr(t))})"
+
+
+def lean_pcond(c) -> str:
+    return {"always": ".always", "ifReport": ".ifReport", "forEachLabel": ".forEachLabel"}.get(c[0]) or f"(.maybe {c[1]})"
+
+
+def lean_peffect(e) -> str:
+    k = e[0]
+    if k == "refuse":
+        return f"(.refuseIfFile {lean_target(e[1])})" if e[2] == "ValueError" else f"(.unknownCall {lean_str('raise ' + e[2])})"
+    if k == "mkdir":
+        return f"(.mkdir {lean_target(e[1])})"
+    if k == "write":
+        return f"(.write {lean_str(e[1])} {lean_target(e[2])} {lean_argref(e[3])})"
+    if k == "delegate":
+        return f"(.delegate {lean_str(e[1])} {lean_target(e[2])} {lean_argref(e[3])})"
+    return f"(.unknownCall {lean_str(e[1])})"
+
+
+def render_plugins(plugins) -> str:
+    items = []
+    for pl in plugins:
+        steps = lean_list((f"⟨{lean_peffect(s['eff'])}, {lean_pcond(s['cond'])}⟩" for s in pl["steps"]), "      ")
+        items.append(
+            "{ formats := [%s], cls := %s, file := %s,\n    fileSuffixes := [%s], defaultFile := %s,\n    steps := %s }"
+            % (", ".join(lean_str(f) for f in pl["formats"]), lean_str(pl["cls"]), lean_str(pl["file"]),
+               ", ".join(lean_str(x) for x in pl["suffixes"]), lean_str(pl["default_file"]), steps))
+    return (
+        "/-- step lists of the builtin result plugins (`save_result` of the yml and the folder plugin): which files\n"
+        "    they write, relative to the result folder -/\n"
+        "def resultPlugins : List ResultPlugin := " + lean_list(items, "  ") + "\n\n")
+
+
+def proto_plugins(plugins, enc, strs, lst) -> str:
+    """the canonical text the Lean driver prints for `plugins`"""
+    def part(x):
+        return x[0] + (":" + enc(x[1]) if x[0] in ("text", "other") else "")
+
+    def target(t):
+        if t[0] == "folder":
+            return "folder"
+        if t[0] == "file":
+            return "file"
+        if t[0] == "in":
+            return "in:" + lst(part(x) for x in t[1])
+        return "other:" + enc(t[1] if len(t) > 1 and isinstance(t[1], str) else repr(t))
+
+    def cond(c):
+        return c[0] if c[0] != "maybe" else f"maybe:{c[1]}"
+
+    def eff(e):
+        k = e[0]
+        if k == "refuse":
+            return f"refuse,{target(e[1])}" if e[2] == "ValueError" else f"unknown,{enc('raise ' + e[2])}"
+        if k == "mkdir":
+            return f"mkdir,{target(e[1])}"
+        if k in ("write", "delegate"):
+            return f"{k},{enc(e[1])},{target(e[2])},{proto_argref(e[3], enc)}"
+        return f"unknown,{enc(e[1])}"
+
+    return lst(
+        f"[{strs(pl['formats'])},{enc(pl['cls'])},{strs(pl['suffixes'])},{enc(pl['default_file'])},"
+        + lst(f"[{eff(s['eff'])},{cond(s['cond'])}]" for s in pl["steps"]) + "]"
+        for pl in plugins)
+
+
 # ------------------------------------------------------------------------------------------------
 # rendering
 # ------------------------------------------------------------------------------------------------
@@ -437,7 +809,7 @@ def lean_list(items, indent="    ") -> str:
     return "[\n" + ",\n".join(indent + x for x in items) + "]"
 
 
-def render(save_fns, call_sites, consts) -> str:
+def render(save_fns, call_sites, consts, plugins=()) -> str:
     fns = []
     for f in save_fns:
         steps = lean_list((f"⟨{lean_effect(s['eff'])}, {lean_cond(s['cond'])}⟩" for s in f["steps"]), "      ")
@@ -474,6 +846,7 @@ def render(save_fns, call_sites, consts) -> str:
         f"def previousFilter : List (List String) := [{prev}]\n\n"
         "/-- which class pattern `re.sub` removes in get_latest_result_path / load_latest_result -/\n"
         f"def latestSubPatterns : List (String × String) := [{subs}]\n\n"
+        + render_plugins(plugins) +
         "end Glotaran.C18.Generated\n"
     )
 
